@@ -68,6 +68,57 @@ mod verif_c19 {
         // what: 0 constructor, 1 config, 2 prebuilt
         ((what + rot) % 3) as usize
     }
+    /// four components - two of the kind the modifiers are addressed to (`what`: 0 constructor, 1 config,
+    /// 2 prebuilt; lines 10 and 13) and one of each other kind (lines 11, 12) - in one of two orders:
+    /// the addressed component is neither always the first of the blueprint nor the first of its kind
+    fn component(what: u8, line: u32) -> sch::Component {
+        match what {
+            0 => constructor(line),
+            1 => config(line),
+            _ => prebuilt(line),
+        }
+    }
+    fn schema4(what: u8, rot: bool) -> sch::Blueprint {
+        let (a, b) = ((what + 1) % 3, (what + 2) % 3);
+        let components = if rot {
+            vec![component(a, 11), component(what, 10), component(b, 12), component(what, 13)]
+        } else {
+            vec![component(what, 10), component(a, 11), component(what, 13), component(b, 12)]
+        };
+        sch::Blueprint { creation_location: loc(1), components }
+    }
+    /// (index, kind, registration line) of the four components
+    fn layout4(what: u8, rot: bool) -> [(usize, u8, u32); 4] {
+        let (a, b) = ((what + 1) % 3, (what + 2) % 3);
+        if rot { [(0, a, 11), (1, what, 10), (2, b, 12), (3, what, 13)] } else { [(0, what, 10), (1, a, 11), (2, what, 13), (3, b, 12)] }
+    }
+    /// index and line of copy `c` of the addressed kind
+    fn target4(rot: bool, c: u8) -> (usize, u32) {
+        match (rot, c) {
+            (false, 0) => (0, 10),
+            (false, _) => (2, 13),
+            (true, 0) => (1, 10),
+            (true, _) => (3, 13),
+        }
+    }
+    fn others_untouched4(bp: &sch::Blueprint, what: u8, rot: bool, skip: usize) -> bool {
+        let l = layout4(what, rot);
+        let mut ok = true;
+        let mut i = 0;
+        while i < 4 {
+            let (idx, kind, line) = l[i];
+            if idx != skip {
+                ok = ok
+                    && match kind {
+                        0 => untouched_constructor(&bp.components[idx], line),
+                        1 => untouched_config(&bp.components[idx], line),
+                        _ => untouched_prebuilt(&bp.components[idx], line),
+                    };
+            }
+            i += 1;
+        }
+        ok
+    }
 
     fn any_cloning() -> (CloningPolicy, sch::CloningPolicy) {
         if kani::any() {
@@ -89,16 +140,17 @@ mod verif_c19 {
 
     // @tier quick
     // @obligation constructor modifiers on the real builder (RegisteredConstructor over a schema with three components, the constructor at a solver-chosen index): any sequence of 3 calls out of lifecycle(any) / cloning(any) / clone_if_necessary() / never_clone(): the schema's constructor holds the lifecycle and cloning policy of the LAST call of each kind, converted faithfully (Singleton stays Singleton, ...), nothing else about it changed, and the two other components are untouched
-    // @bounds 3 components, 3 modifier calls, all argument values
+    // @bounds 4 components (2 constructors + 1 config type + 1 prebuilt type, 2 orders), 3 modifier calls, all argument values
     // @functions RegisteredConstructor::lifecycle, ::cloning, ::clone_if_necessary, ::never_clone, conversions::lifecycle2lifecycle, conversions::cloning2cloning
     // @timeout 900
     #[kani::proof]
     #[kani::unwind(5)]
     fn c19_constructor_lifecycle_and_cloning() {
-        let rot: u8 = kani::any();
-        kani::assume(rot < 3);
-        let mut bp = schema(rot);
-        let id = index_of(rot, 0);
+        let rot: bool = kani::any();
+        let copy: u8 = kani::any();
+        kani::assume(copy < 2);
+        let mut bp = schema4(0, rot);
+        let (id, line) = target4(rot, copy);
         let mut want_l: Option<sch::Lifecycle> = None;
         let mut want_c: Option<sch::CloningPolicy> = None;
         let mut r = RegisteredConstructor { blueprint: &mut bp, component_id: id };
@@ -142,24 +194,30 @@ mod verif_c19 {
             i += 1;
         }
         let _ = r;
-        assert!(bp.components.len() == 3, "a modifier call added or removed a component");
+        assert!(bp.components.len() == 4, "a modifier call added or removed a component");
         match &bp.components[id] {
             sch::Component::Constructor(k) => {
                 assert!(k.lifecycle == want_l, "the schema does not hold the lifecycle the last lifecycle() call set");
                 assert!(k.cloning_policy == want_c, "the schema does not hold the cloning policy the last cloning call set");
-                assert!(k.lints.is_empty() && k.error_handler.is_none() && k.registered_at.line == 10, "a lifecycle/cloning call changed another field of the constructor");
+                assert!(k.lints.is_empty() && k.error_handler.is_none() && k.registered_at.line == line, "a lifecycle/cloning call changed another field of the constructor");
             }
             _ => panic!("the constructor is no longer a constructor"),
         }
-        assert!(untouched_config(&bp.components[index_of(rot, 1)], 11), "a constructor modifier changed the config type registered next to it");
-        assert!(untouched_prebuilt(&bp.components[index_of(rot, 2)], 12), "a constructor modifier changed the prebuilt type registered next to it");
-        kani::cover!(want_l == Some(sch::Lifecycle::Transient) && want_c == Some(sch::CloningPolicy::NeverClone) && id == 2, "transient + never-clone at index 2");
+        assert!(others_untouched4(&bp, 0, rot, id), "a constructor modifier changed a component other than the one it was addressed to");
+        kani::cover!(want_l == Some(sch::Lifecycle::Transient) && want_c == Some(sch::CloningPolicy::NeverClone) && id == 3, "transient + never-clone on the second constructor, at index 3");
         std::mem::forget(bp);
     }
 
-    fn lints_body(calls: usize) {
+    fn lints_body(calls: usize, prepopulated: bool) {
         let mut bp = schema(0);
         let mut want: [Option<sch::LintSetting>; 2] = [None, None];
+        if prepopulated {
+            // an earlier allow(Lint::Unused), written down concretely
+            if let sch::Component::Constructor(k) = &mut bp.components[0] {
+                k.lints.insert(sch::Lint::Unused, sch::LintSetting::Allow);
+            }
+            want[0] = Some(sch::LintSetting::Allow);
+        }
         let mut r = RegisteredConstructor { blueprint: &mut bp, component_id: 0 };
         let mut i = 0;
         while i < calls {
@@ -187,19 +245,33 @@ mod verif_c19 {
             _ => panic!("the constructor is no longer a constructor"),
         }
         kani::cover!(want[0] == Some(sch::LintSetting::Deny), "deny(unused)");
-        kani::cover!(want[1] == Some(sch::LintSetting::Allow), "allow(error_fallback)");
+        kani::cover!(want[1] == Some(sch::LintSetting::Warn), "warn(error_fallback)");
         std::mem::forget(bp);
     }
 
-    // @tier quick
-    // @obligation lint settings of a constructor: one call out of allow / warn / deny on either lint: the schema's lint table holds exactly that setting for that lint (converted by lint2lint) and no entry for the other lint
+    // @tier thorough
+    // @exploratory true
+    // @obligation (exploratory: a single BTreeMap insertion with a symbolic key ran CBMC out of memory at 14 GB; lints are outside the claim) lint settings of a constructor: one call out of allow / warn / deny on either lint: the schema's lint table holds exactly that setting for that lint (converted by lint2lint) and no entry for the other lint
     // @bounds 1 call, 2 lints x 3 settings
     // @functions RegisteredConstructor::allow, ::warn, ::deny, conversions::lint2lint
     // @timeout 900
     #[kani::proof]
     #[kani::unwind(5)]
     fn c19_constructor_lints() {
-        lints_body(1);
+        lints_body(1, false);
+    }
+
+    // @tier thorough
+    // @exploratory true
+    // @obligation (exploratory, see c19_constructor_lints) an overriding lint call: the constructor already carries allow(Lint::Unused) (written into the schema concretely); one more call out of allow / warn / deny on either lint: a call that names Lint::Unused replaces the earlier setting (the LAST call wins), a call that names the other lint leaves it alone
+    // @bounds 1 symbolic call on a lint table with one entry
+    // @functions RegisteredConstructor::allow, ::warn, ::deny, conversions::lint2lint
+    // @timeout 900
+    // @mem 24
+    #[kani::proof]
+    #[kani::unwind(5)]
+    fn c19_constructor_lints_override_one() {
+        lints_body(1, true);
     }
 
     // @tier thorough
@@ -212,21 +284,22 @@ mod verif_c19 {
     #[kani::proof]
     #[kani::unwind(5)]
     fn c19_constructor_lints_override() {
-        lints_body(2);
+        lints_body(2, false);
     }
 
     // @tier quick
-    // @obligation config-type and prebuilt-type modifiers: any sequence of 3 calls out of cloning(any) / clone_if_necessary() / never_clone() / default_if_missing() / required() / include_if_unused() on the config type, then one cloning call on the prebuilt type: each schema entry holds what the last call of each kind said, the other components are untouched
-    // @bounds 3 components, 3 + 1 modifier calls
-    // @functions RegisteredConfig::cloning, ::clone_if_necessary, ::never_clone, ::default_if_missing, ::required, ::include_if_unused, RegisteredPrebuilt::cloning, ::clone_if_necessary, ::never_clone
+    // @obligation config-type modifiers: any sequence of 3 calls out of cloning(any) / clone_if_necessary() / never_clone() / default_if_missing() / required() / include_if_unused() on either of two config types of a four-component schema: the addressed entry holds what the last call of each kind said, the three other components - the other config type included - are untouched
+    // @bounds 4 components (2 config types + 1 constructor + 1 prebuilt type, 2 orders), 3 modifier calls
+    // @functions RegisteredConfig::cloning, ::clone_if_necessary, ::never_clone, ::default_if_missing, ::required, ::include_if_unused, conversions::cloning2cloning
     // @timeout 900
     #[kani::proof]
     #[kani::unwind(5)]
-    fn c19_config_and_prebuilt_modifiers() {
-        let rot: u8 = kani::any();
-        kani::assume(rot < 3);
-        let mut bp = schema(rot);
-        let (ci, pi) = (index_of(rot, 1), index_of(rot, 2));
+    fn c19_config_modifiers() {
+        let rot: bool = kani::any();
+        let copy: u8 = kani::any();
+        kani::assume(copy < 2);
+        let mut bp = schema4(1, rot);
+        let (ci, cline) = target4(rot, copy);
         let mut want_c: Option<sch::CloningPolicy> = None;
         let mut want_d: Option<bool> = None;
         let mut want_i: Option<bool> = None;
@@ -248,36 +321,60 @@ mod verif_c19 {
             }
             let _ = r;
         }
-        let want_p;
-        {
-            let r = RegisteredPrebuilt { blueprint: &mut bp, component_id: pi };
-            let k: u8 = kani::any();
-            kani::assume(k < 3);
-            let _ = match k {
-                0 => { let (c, w) = any_cloning(); want_p = Some(w); r.cloning(c) }
-                1 => { want_p = Some(sch::CloningPolicy::CloneIfNecessary); r.clone_if_necessary() }
-                _ => { want_p = Some(sch::CloningPolicy::NeverClone); r.never_clone() }
-            };
-        }
-        assert!(bp.components.len() == 3, "a modifier call added or removed a component");
+        assert!(bp.components.len() == 4, "a modifier call added or removed a component");
         match &bp.components[ci] {
             sch::Component::ConfigType(k) => {
                 assert!(k.cloning_policy == want_c, "the config type does not hold the cloning policy the last cloning call set");
                 assert!(k.default_if_missing == want_d, "the config type does not hold the last default_if_missing()/required() choice");
                 assert!(k.include_if_unused == want_i, "include_if_unused() is not recorded (or recorded without being called)");
-                assert!(k.registered_at.line == 11);
+                assert!(k.registered_at.line == cline);
             }
             _ => panic!("the config type is no longer a config type"),
         }
+        assert!(others_untouched4(&bp, 1, rot, ci), "a config modifier changed a component other than the one it was addressed to");
+        kani::cover!(want_d == Some(false) && want_c == Some(sch::CloningPolicy::NeverClone) && want_i == Some(true) && ci == 3, "required + never-clone + include-if-unused on the second config type");
+        std::mem::forget(bp);
+    }
+
+    // @tier quick
+    // @obligation prebuilt-type modifiers: 2 calls out of cloning(any) / clone_if_necessary() / never_clone() on either of two prebuilt types of a four-component schema: the addressed entry holds the policy of the last call, the three other components are untouched
+    // @bounds 4 components (2 prebuilt types + 1 constructor + 1 config type, 2 orders), 2 modifier calls
+    // @functions RegisteredPrebuilt::cloning, ::clone_if_necessary, ::never_clone, conversions::cloning2cloning
+    // @timeout 900
+    #[kani::proof]
+    #[kani::unwind(5)]
+    fn c19_prebuilt_modifiers() {
+        let rot: bool = kani::any();
+        let copy: u8 = kani::any();
+        kani::assume(copy < 2);
+        let mut bp = schema4(2, rot);
+        let (pi, pline) = target4(rot, copy);
+        let mut want_p: Option<sch::CloningPolicy> = None;
+        {
+            let mut r = RegisteredPrebuilt { blueprint: &mut bp, component_id: pi };
+            let mut i = 0;
+            while i < 2 {
+                let k: u8 = kani::any();
+                kani::assume(k < 3);
+                r = match k {
+                    0 => { let (c, w) = any_cloning(); want_p = Some(w); r.cloning(c) }
+                    1 => { want_p = Some(sch::CloningPolicy::CloneIfNecessary); r.clone_if_necessary() }
+                    _ => { want_p = Some(sch::CloningPolicy::NeverClone); r.never_clone() }
+                };
+                i += 1;
+            }
+            let _ = r;
+        }
+        assert!(bp.components.len() == 4, "a modifier call added or removed a component");
         match &bp.components[pi] {
             sch::Component::PrebuiltType(k) => {
-                assert!(k.cloning_policy == want_p, "the prebuilt type does not hold the cloning policy the cloning call set");
-                assert!(k.registered_at.line == 12);
+                assert!(k.cloning_policy == want_p, "the prebuilt type does not hold the cloning policy the last cloning call set");
+                assert!(k.registered_at.line == pline);
             }
             _ => panic!("the prebuilt type is no longer a prebuilt type"),
         }
-        assert!(untouched_constructor(&bp.components[index_of(rot, 0)], 10), "a config/prebuilt modifier changed the constructor registered next to it");
-        kani::cover!(want_d == Some(false) && want_c == Some(sch::CloningPolicy::NeverClone) && want_i == Some(true), "required + never-clone + include-if-unused");
+        assert!(others_untouched4(&bp, 2, rot, pi), "a prebuilt modifier changed a component other than the one it was addressed to");
+        kani::cover!(want_p == Some(sch::CloningPolicy::CloneIfNecessary) && pi == 3, "clone-if-necessary on the second prebuilt type");
         std::mem::forget(bp);
     }
 
